@@ -313,7 +313,7 @@ class World:
         self.pv = self.wv = 0
         pr = p0.reshape(len(p0), -1)
         cell = min(3.0, float(np.max(np.linalg.norm(np.atleast_2d(self.rv).reshape(-1, dim), axis=1))))
-        self.centres = [pr.mean(axis=0), pr[2] + 0.37 * cell]
+        self.centres = [pr.mean(axis=0), pr[2] + 0.37 * cell, pr.mean(axis=0) + 1e-7]
         self.radii = [0.45 * cell, 1.3 * cell]
         self.last = None
         self.edited = False
@@ -322,7 +322,7 @@ class World:
         self.violations.append((f"history:{self.conf}:{key}", what, det))
 
     def enabled(self):
-        evs = [("Q", ci, ri) for ci in (0, 1) for ri in (0, 1)] + [("SW",)]
+        evs = [("Q", ci, ri) for ci in (0, 1, 2) for ri in (0, 1)] + [("SW",)]
         if not self.wrap:
             evs.append(("SP",))
         if self.last is not None and not self.edited:
@@ -349,6 +349,8 @@ class World:
                         self._bad("Q:weights-not-current-parent-weights", "local weights are not the current parent weights of the indices")
                 if not (np.array_equal(g.points, P) and np.array_equal(g.weights, W)):
                     self._bad("Q:grid-modified", "a query changed the grid's points or weights")
+                if not np.array_equal(np.asarray(loc.center), np.asarray(cc)):
+                    self._bad("Q:center-not-echoed", "the local grid does not carry the centre of this query")
                 self.last, self.edited = (ev[1], ev[2], loc), False
                 return ("Q", len(li))
             if ev[0] == "EL":
